@@ -580,9 +580,29 @@ func c17Invert(c *core.Ctx) {
 		// an input: Invert must store it inverted (in a replacement Totals or into the field)
 		kept := false
 		ast.Inspect(fd.Decl.Body, func(m ast.Node) bool {
-			negated := func(e ast.Expr) bool {
+			var negated func(e ast.Expr) bool
+			negDepth := 0
+			ldN := core.NewLocalDefs(info, fd.Decl.Body)
+			negated = func(e ast.Expr) bool {
 				r := false
+				if negDepth > 5 {
+					return false
+				}
 				ast.Inspect(e, func(k ast.Node) bool {
+					// a local stands for what it was computed from
+					if id, ok := k.(*ast.Ident); ok && !r {
+						if v, ok := info.Uses[id].(*types.Var); ok && !v.IsField() {
+							for _, d := range ldN.All(v) {
+								if d.RHS != nil && d.RHS != e {
+									negDepth++
+									if negated(d.RHS) {
+										r = true
+									}
+									negDepth--
+								}
+							}
+						}
+					}
 					if call, ok := k.(*ast.CallExpr); ok {
 						fn := core.Callee(info, call)
 						if isAmountMethod(fn, "Invert", "Negate") {
